@@ -1508,6 +1508,10 @@ func c11Plant(t []byte, i int, w []byte, circ bool) {
 }
 
 func (c11) Gen(rng *rand.Rand, tier string, emit func(string)) {
+	if os.Getenv("C11_ONLY") == "glue" { // developer aid (timing / sweeps of the glue cases alone; other draws than in a full run)
+		c11GenGlue(rng, tier, emit)
+		return
+	}
 	c11Tier = tier
 	S := func(s string) []byte { return []byte(s) }
 	rep := func(s string, n int) string { return strings.Repeat(s, n) }
